@@ -203,6 +203,10 @@ class Holder:
     def meth(self, x):
         return x
 
+    @staticmethod
+    def smeth(x):
+        return x
+
     @property
     def prop(self):
         return 1
@@ -222,8 +226,16 @@ class CallableGA:
         return object.__getattribute__(self, name)
 
 
+class GlobalGA:
+    """attribute hook on an object stored in a module global"""
+    def __getattribute__(self, name):
+        note(f"GlobalGA.__getattribute__({name})")
+        return object.__getattribute__(self, name)
+
+
 # a module global that happens to be named like a traced method: get_func looks at it first
-meth = GA("global named like Holder.meth")
+meth = GlobalGA()
+some_lazy_global = GlobalGA()     # any other global: scanned when a static method has to be looked up
 
 
 def outer_with_closure(v):
@@ -255,6 +267,7 @@ def workload(vals, out):
         pair(v, vals[(i + 1) % len(vals)], v, k=v, extra=v)
         takes_container([v])
         out.append(("meth", i, h.meth(v) is v))
+        out.append(("smeth", i, Holder.smeth(v) is v))
         g = gen_of(v)
         out.append(("gen", i, next(g) is v))
         if i % 3 == 0:
@@ -331,7 +344,7 @@ def main():
                 try:
                     with trace_calls(logger, rnd.choice([0, 2]), lambda code: code.co_filename == this_file
                                      and code.co_name in ("ident", "pair", "takes_container", "gen_of", "meth", "prop",
-                                                          "named_like_a_global", "outer_with_closure", "local_fn")):
+                                                          "named_like_a_global", "outer_with_closure", "local_fn", "smeth")):
                         workload(vals, out)
                         if body_raises:
                             raise KeyError("from the traced block")
